@@ -80,6 +80,23 @@ CLAIMED.update({
         ref='DESIGN.md 3/C20'),
 })
 
+CLAIMED.update({
+    'C10': dict(
+        text='One step of one fork (Fork.__next__, real source) is proved under interference by its peers against a fork-local invariant over an index model of the '
+             'element chain: it returns element #consumed exactly once and in order, pulls the source only under the lock and only at the re-checked tip (once per '
+             'element), links before publishing, pops the window only as the last consumer, releases the lock on every exit, takes the source lock only with timed '
+             're-checking acquisitions (S2), and ends by StopIteration / the remembered source exception only after all elements. The proof found a residual race in '
+             'the first repair (fixed: cd21f2a). The numeric window bound is not decided.',
+        technique='contract-based deductive verification: pyvc E2 (rely/guarantee with monotone shared ghosts, own-contract recursion) + structural blocking obligations, z3',
+        ref='DESIGN.md 3/C10'),
+    'C15': dict(
+        text='is_remote_exception, get_remote_traceback, RemoteTraceback, _rebuild_exception, RemoteException.__init__/__reduce__ are proved against record-level contracts '
+             '(class, args, traceback, cause, text); the k-hop statement is an induction whose base and step (forwarded: identical text; re-raised: contains, with explicit '
+             'witnesses) are discharged by z3. The EnsembleError member re-wrapping is outside the by-value model and is covered by a bounded runtime stand-in (labelled).',
+        technique='contract-based deductive verification: pyvc VCs + hop-induction lemma over strings (z3 seq); bounded stand-in for one branch',
+        ref='DESIGN.md 3/C15'),
+})
+
 PENDING = 'check under construction (see DESIGN.md section 3)'
 NA = {}
 
